@@ -608,6 +608,13 @@ func (e *Env) call(n *ECall) TVal {
 			r = app("s-arr", r)
 		}
 		return TVal{term: app(">=", app("rid", r), e.loop.pre.next), ty: boolTy()}
+	case "atloopheap": // the expression over the heap as it was when the loop was entered, with the locals' current values
+		if e.loop == nil || e.loop.pre == nil {
+			panic(genErr("atloopheap() outside a loop invariant"))
+		}
+		nh := *e
+		nh.hst = e.loop.pre
+		return nh.evalLazy(n.Args[0])
 	case "atloop": // value of the expression when the loop whose invariant this is was entered
 		if e.loop == nil || e.loop.pre == nil {
 			panic(genErr("atloop() outside a loop invariant"))
